@@ -45,40 +45,59 @@ def impl_eval(binp, reqs):
 
 
 def oracle(binp, r, n_rc=6):
-    """numerical check of the property on the real functions; returns a failing case dict or None"""
+    """numerical check of the property on the real functions; returns a failing case dict or None.
+    ALL kernel objects of all cutoffs live in ONE process, in a shuffled order (as several weighting functions of one input
+    file do), so state shared between kernel objects shows."""
     rcs = [0.5, 1.0, 1.5, 2.0, 3.25] + [round(r.uniform(0.3, 5.0), 3) for _ in range(n_rc)]
-    for K in KERNELS:
-        for rc in rcs:
-            N = 2000
-            xs = [rc * i / N for i in range(N + 1)]
-            vals = impl_eval(binp, [("%s_interpolate" % K, repr(rc), repr(x)) for x in xs])
-            if len(vals) != N + 1 or any(isinstance(v, str) for v in vals):
-                return dict(kernel=K, cutoff=rc, problem="interpolate could not be evaluated on the support", values=vals[:3])
-            if min(vals) < -1e-12 * max(1.0, max(vals)):
-                i = vals.index(min(vals))
-                return dict(kernel=K, cutoff=rc, r=xs[i], problem="negative kernel value", value=vals[i])
-            if abs(vals[-1]) > 1e-9 * max(vals):
-                return dict(kernel=K, cutoff=rc, r=rc, problem="kernel does not vanish at the cutoff", value=vals[-1])
-            # composite Simpson of 4 pi r^2 W
-            f = [4 * math.pi * x * x * v for x, v in zip(xs, vals)]
-            h = rc / N
-            integral = h / 3 * (f[0] + f[-1] + 4 * sum(f[1:-1:2]) + 2 * sum(f[2:-1:2]))
-            if abs(integral - 1) > 1e-6:
-                return dict(kernel=K, cutoff=rc, problem="kernel is not normalised: integral of 4 pi r^2 W over [0,rc]", value=integral)
-            selfv = impl_eval(binp, [("%s_interpolate_self" % K, repr(rc), "0")])[0]
-            if isinstance(selfv, str) or abs(selfv - vals[0]) > 1e-12 * abs(vals[0]):
-                return dict(kernel=K, cutoff=rc, problem="self contribution differs from W(0)", value=selfv, w0=vals[0])
-            # gradient weight where provided
-            pts = [rc * t for t in (0.1, 0.3, 0.5, 0.7, 0.9)]
-            w = impl_eval(binp, [("%s_weight" % K, repr(rc), repr(x)) for x in pts])
-            if any(isinstance(v, str) for v in w):
-                continue          # no gradient weight provided (throws)
-            for x, wv in zip(pts, w):
-                e = 1e-5 * rc
-                a, b = impl_eval(binp, [("%s_interpolate" % K, repr(rc), repr(x + e)), ("%s_interpolate" % K, repr(rc), repr(x - e))])
-                d = (a - b) / (2 * e)
-                if abs(-d / x - wv) > 1e-5 * max(abs(wv), 1e-9):
-                    return dict(kernel=K, cutoff=rc, r=x, problem="weight differs from -W'(r)/r", weight=wv, minus_dW_over_r=-d / x)
+    N = 2000
+    combos = [(K, rc) for K in KERNELS for rc in rcs]
+    r.shuffle(combos)
+    reqs, index = [], {}
+    for K, rc in combos:
+        xs = [rc * i / N for i in range(N + 1)]
+        pts = [rc * t for t in (0.1, 0.3, 0.5, 0.7, 0.9)]
+        e = 1e-5 * rc
+        block = [("%s_interpolate" % K, repr(rc), repr(x)) for x in xs] + [("%s_interpolate_self" % K, repr(rc), "0")]
+        block += [("%s_weight" % K, repr(rc), repr(x)) for x in pts]
+        for x in pts:
+            block += [("%s_interpolate" % K, repr(rc), repr(x + e)), ("%s_interpolate" % K, repr(rc), repr(x - e))]
+        index[(K, rc)] = (len(reqs), xs, pts, e)
+        reqs += block
+    allv = impl_eval(binp, reqs)
+    order = ["%s rc=%s" % c for c in combos]
+    if len(allv) != len(reqs):
+        return dict(kernel="?", cutoff=0, problem="the kernel harness did not answer every request (%d of %d)" % (len(allv), len(reqs)))
+    for K, rc in combos:
+        o, xs, pts, e = index[(K, rc)]
+        vals = allv[o:o + N + 1]
+        ctxd = dict(kernel=K, cutoff=rc, first_object_of_this_kernel_in_this_process=next(c for c in order if c.startswith(K + " ")),
+                    kernel_objects_created_before_in_this_process=order[:order.index("%s rc=%s" % (K, rc))][-6:])
+        if any(isinstance(v, str) for v in vals):
+            return dict(ctxd, problem="interpolate could not be evaluated on the support", values=vals[:3])
+        if min(vals) < -1e-12 * max(1.0, max(vals)):
+            i = vals.index(min(vals))
+            return dict(ctxd, r=xs[i], problem="negative kernel value", value=vals[i])
+        if abs(vals[-1]) > 1e-9 * max(vals):
+            return dict(ctxd, r=rc, problem="kernel does not vanish at the cutoff", value=vals[-1])
+        # composite Simpson of 4 pi r^2 W
+        f = [4 * math.pi * x * x * v for x, v in zip(xs, vals)]
+        h = rc / N
+        integral = h / 3 * (f[0] + f[-1] + 4 * sum(f[1:-1:2]) + 2 * sum(f[2:-1:2]))
+        if abs(integral - 1) > 1e-6:
+            return dict(ctxd, problem="kernel is not normalised: integral of 4 pi r^2 W over [0,rc]", value=integral)
+        selfv = allv[o + N + 1]
+        if isinstance(selfv, str) or abs(selfv - vals[0]) > 1e-12 * abs(vals[0]):
+            return dict(ctxd, problem="self contribution differs from W(0)", value=selfv, w0=vals[0])
+        # gradient weight where provided
+        w = allv[o + N + 2:o + N + 2 + len(pts)]
+        if any(isinstance(v, str) for v in w):
+            continue          # no gradient weight provided (throws)
+        fd = allv[o + N + 2 + len(pts):o + N + 2 + 3 * len(pts)]
+        for k, (x, wv) in enumerate(zip(pts, w)):
+            a, b = fd[2 * k], fd[2 * k + 1]
+            d = (a - b) / (2 * e)
+            if abs(-d / x - wv) > 1e-5 * max(abs(wv), 1e-9):
+                return dict(ctxd, r=x, problem="weight differs from -W'(r)/r", weight=wv, minus_dW_over_r=-d / x)
     return None
 
 
@@ -118,7 +137,10 @@ def run(ctx):
     samples = []
     if okh and gen_ok and os.path.exists(common.symdrv()):
         impl = impl_eval(binp, reqs)
-        model = common.run_model("kernels", ["eval %s %s %s" % q for q in reqs])
+        # the model gets the bit patterns of the doubles the real functions get (strtod of the same decimal text)
+        def fb(t):
+            return struct.unpack("<Q", struct.pack("<d", float(t)))[0]
+        model = common.run_model("kernels", ["evalb %s %d %d" % (q[0], fb(q[1]), fb(q[2])) for q in reqs])
         for q, a, b in zip(reqs, model, impl):
             mv = bits2f(a) if a.isdigit() else a
             if isinstance(b, str) or isinstance(mv, str):
@@ -139,14 +161,17 @@ def run(ctx):
                 mism.append(((nm, "1.5", "0.5"), "no definition generated", v))
     ctx.oblige("translation validation: generated kernel terms = real functions on %d sampled evaluations (rel 1e-13)" % len(reqs),
                okh and gen_ok and not mism, str(mism[:3]))
+    # numerical oracle on the REAL functions, all kernel objects in one process (always run: independent of the translator)
+    found = oracle(binp, r, 6 if not ctx.thorough else 40) if okh else dict(kernel="?", problem="harness missing")
+    ctx.oblige("numerical oracle on the real functions (all kernels, %d cutoffs, objects created in one process in shuffled order): sign, W(rc)=0, quadrature of 4 pi r^2 W = 1, self value, weight = -W'/r by central differences"
+               % (11 if not ctx.thorough else 45), found is None, str(found)[:400])
     ctx.coverage.update(dict(evaluations=len(reqs), distinct_nontrivial=len(set(reqs)),
                              rule="(definition, cutoff, r) triples with cutoffs in [0.2,30] and r in {0, rc, 0.001 rc, 0.999 rc, uniform}; all are non-trivial (each evaluates one generated definition against the real member function)",
                              samples=samples, programs=len(EXPECTED_DEFS), disagreements_checked=len(mism)))
     ctx.assumptions += ["r->abs() is the Euclidean norm of the pair distance (Pairdist), M_PI = π", "double arithmetic approximates the real-number model; the theorems are about the real-number functions"]
     if not all(o[1] for o in ctx.obligations):
         failing = [o[0] for o in ctx.obligations if not o[1]]
-        found = oracle(binp, r) if okh else None
-        if found:
+        if found and found.get("kernel") != "?":
             ctx.violation("kernel %s violates C16: %s" % (found["kernel"], found["problem"]),
                           dict(kind="kernel-evaluation", failing_obligations=failing, **found,
                                how_to_replay="printf 'eval <K>_interpolate <rc> <r>\\n' | .work/bin/h_kernels (bit patterns of doubles)"), True)
